@@ -11,12 +11,15 @@ import (
 )
 
 type Clause struct {
-	Kind string // requires, ensures, invariant, assert
+	Kind string // requires, ensures, invariant, assert, snap
 	Mode string // "", "A", "H"
 	Expr *CExpr
-	Name string // let name / label
+	Name string // let name / label / anchor
 	Text string
 	Line int
+	Reveal []string // clause-level `using reveal f g`
+	Lemmas []string // clause-level `using lemmas a b`
+	Var    string   // snap: ghost name
 }
 
 type LoopSpec struct {
@@ -62,6 +65,7 @@ type Contract struct {
 	First    string
 	FieldTypes map[string]string
 	Unreach  []string // function keys that must not be reachable through repository code
+	Covers   []*Clause // conditions that must be satisfiable at some return (guards against vacuous success paths)
 }
 
 type ContractSet struct {
@@ -76,7 +80,7 @@ func NewContractSet() *ContractSet {
 
 var clauseKW = map[string]bool{"func": true, "extern": true, "requires": true, "ensures": true, "invariant": true, "decreases": true,
 	"modifies": true, "loop": true, "returns": true, "let": true, "lemmas": true, "reveal": true, "field": true, "modes": true,
-	"property": true, "assert": true, "pure": true, "trusted": true, "package": true, "unroll": true, "nopanic": true, "opt": true, "havoc": true, "end": true, "shape": true, "cases": true, "ghost": true, "typefact": true, "public": true, "first": true, "unreachable": true, "fieldtype": true}
+	"property": true, "assert": true, "pure": true, "trusted": true, "package": true, "unroll": true, "nopanic": true, "opt": true, "havoc": true, "end": true, "shape": true, "cases": true, "ghost": true, "typefact": true, "public": true, "first": true, "unreachable": true, "fieldtype": true, "snap": true, "cover": true}
 
 var kwRe = regexp.MustCompile(`^([a-z]+)(\[[AH]\])?(@\S+)?(\s|$)`)
 
@@ -179,6 +183,12 @@ func (cs *ContractSet) ParseContractLines(lines []rawLine, defPkg string, file s
 			return fmt.Errorf("%s: clause outside contract", where)
 		}
 		switch s.kw {
+		case "cover":
+			e, err := parse()
+			if err != nil {
+				return err
+			}
+			cur.Covers = append(cur.Covers, &Clause{Kind: "cover", Mode: s.mode, Expr: e, Text: s.rest, Line: s.line})
 		case "requires", "ensures":
 			e, err := parse()
 			if err != nil {
@@ -207,12 +217,39 @@ func (cs *ContractSet) ParseContractLines(lines []rawLine, defPkg string, file s
 			if curLoop != nil {
 				curLoop.Decreases = e
 			}
-		case "assert":
-			e, err := parse()
-			if err != nil {
-				return err
+		case "assert", "snap":
+			body := s.rest
+			var rev, lem []string
+			if k := strings.Index(body, " using "); k >= 0 {
+				us := strings.Fields(strings.ReplaceAll(body[k+7:], ",", " "))
+				body = strings.TrimSpace(body[:k])
+				mode := ""
+				for _, u := range us {
+					if u == "reveal" || u == "lemmas" {
+						mode = u
+						continue
+					}
+					if mode == "reveal" {
+						rev = append(rev, u)
+					} else if mode == "lemmas" {
+						lem = append(lem, u)
+					}
+				}
 			}
-			cur.Asserts = append(cur.Asserts, &Clause{Kind: "assert", Mode: s.mode, Expr: e, Name: s.anchor, Text: s.rest, Line: s.line})
+			varName := ""
+			if s.kw == "snap" {
+				parts := strings.SplitN(body, "=", 2)
+				if len(parts) != 2 {
+					return fmt.Errorf("%s: snap@anchor name = expr", where)
+				}
+				varName = strings.TrimSpace(parts[0])
+				body = strings.TrimSpace(parts[1])
+			}
+			e, err := ParseCExpr(body)
+			if err != nil {
+				return fmt.Errorf("%s: %v", where, err)
+			}
+			cur.Asserts = append(cur.Asserts, &Clause{Kind: s.kw, Mode: s.mode, Expr: e, Name: s.anchor, Text: body, Line: s.line, Reveal: rev, Lemmas: lem, Var: varName})
 		case "modifies":
 			for _, part := range splitTop(s.rest) {
 				e, err := ParseCExpr(part)
